@@ -148,6 +148,20 @@ ArgSetsDeferT ==
       [] c = "position" -> {<<One, M2h, Tenth, Zero>>, <<M2h, One, Zero, Tenth>>}
       [] OTHER -> ArgSetsDefer[c]]
 DeferVersionsT == {7, 9}
+\* other PLATFORM-port traffic: every channel x (no data, one byte, two and three bytes with first byte 0 / 1 / 2 /
+\* 255 and a second byte on either side of both version switches); <<1, <<0, v>>>> would be a version answer
+NoPlat == {}
+PlatData == {<<>>, <<0>>, <<1>>, <<0, 1>>, <<0, 7>>, <<0, 10>>, <<1, 7>>, <<1, 10>>, <<2, 9>>, <<255, 3>>, <<0, 200, 7>>}
+PlatAll == {<<c, d>> : c \in 0..3, d \in PlatData} \ {<<1, <<0, 1>>>>, <<1, <<0, 200, 7>>>>}
+PlatCmds == {"hover", "velocity_world", "zdistance", "hl_goto", "hl_spiral", "position"}
+ArgSetsPlat ==
+  [c \in Cmds |->
+    CASE c \in {"hover", "velocity_world", "zdistance", "position"} -> {<<One, M2h, Tenth, One>>}
+      [] c = "hl_goto" -> {<<One, M2h, Tenth, Zero, One, Bt, Bt, In(0)>>}
+      [] c = "hl_spiral" -> {<<One, Tenth, One, M2h, One, Bt, Bf, In(0)>>}
+      [] OTHER -> {}]
+PlatVersions == {7, 8, 9, 10}
+PlatSim == {<<c, d>> : c \in 0..3, d \in {<<>>, <<0>>, <<0, 1>>, <<0, 10>>, <<1, 7>>, <<2, 9>>}} \ {<<1, <<0, 1>>>>}
 LinksNow == {"now"}
 LinksBoth == {"now", "later"}
 Ports16 == 0..15
